@@ -1712,6 +1712,8 @@ class Model:
                 return False
             if isinstance(it, ast.Call) and isinstance(it.func, ast.Name) and it.func.id in ("list", "tuple", "iter", "reversed", "sorted") and it.args:
                 return elements_from_fields(it.args[0], tgt, var)
+            if isinstance(it, (ast.ListComp, ast.GeneratorExp, ast.SetComp)) and isinstance(tgt, ast.Name) and tgt.id == var:
+                return _names_comp(it)         # for name in [f.name for f in fields(C)]
             if isinstance(it, ast.Name):
                 v = module_value(it.id)
                 # a module-level list of names built from the fields: [f.name for f in fields(C) if ..]
